@@ -112,6 +112,9 @@ _SAFE_CASTS = {
 
 _SAFE_NAME_REFERENCES = {"len", "abs", "max", "min", "int", "float", "bool", "str"}
 
+# Integer results wider than this are not folded; the expression is left to run time.
+_MAX_CONST_BITS = 4096
+
 
 def _make_list_type_label(element_type: str) -> str:
     """Return the canonical internal type label for a list of ``element_type``."""
@@ -329,6 +332,18 @@ def _eval_const(expr: str, env: dict):
         }
         if not isinstance(a, (int, float)) or not isinstance(b, (int, float)):
             raise ValueError("unsupported operand type")
+        if isinstance(a, int) and isinstance(b, int):
+            # Estimate the size of the result first: 9**9**9 or 1 << (1 << 40)
+            # must not be computed at transpile time.
+            bits = 0
+            if opcls is ast.Pow and b > 0:
+                bits = a.bit_length() * b
+            elif opcls is ast.LShift and b > 0:
+                bits = a.bit_length() + b
+            elif opcls is ast.Mult:
+                bits = a.bit_length() + b.bit_length()
+            if bits > _MAX_CONST_BITS:
+                raise ValueError("constant too large to fold")
         return ops[opcls](a, b)
 
     tree = ast.parse(expr, mode="eval")
@@ -2210,13 +2225,12 @@ def _parse_simple_lines(
         if expr_ast is not None and not _expr_has_name(expr_ast):
             try:
                 value = _eval_const(arg_src, vars)
-            except Exception:
-                pass
-            else:
                 if isinstance(value, bool):
                     return 1 if value else 0
                 if isinstance(value, (int, float)):
                     return int(value)
+            except Exception:
+                pass
         return _to_c_expr(arg_src, vars, ctx)
 
     def _resolve_float_arg(
@@ -2231,13 +2245,12 @@ def _parse_simple_lines(
         if expr_ast is not None and not _expr_has_name(expr_ast):
             try:
                 value = _eval_const(arg_src, vars)
-            except Exception:
-                pass
-            else:
                 if isinstance(value, bool):
                     return 1.0 if value else 0.0
                 if isinstance(value, (int, float)):
                     return float(value)
+            except Exception:
+                pass
         return _to_c_expr(arg_src, vars, ctx)
 
     def _resolve_optional_numeric_arg(
@@ -2255,13 +2268,12 @@ def _parse_simple_lines(
         if expr_ast is not None and not _expr_has_name(expr_ast):
             try:
                 value = _eval_const(text, vars)
-            except Exception:
-                pass
-            else:
                 if isinstance(value, bool):
                     return 1 if value else 0
                 if isinstance(value, (int, float)):
                     return int(value)
+            except Exception:
+                pass
         return _to_c_expr(text, vars, ctx)
 
     def _resolve_bool_arg(arg_src: Optional[str], default: bool) -> Union[bool, str]:
@@ -2480,13 +2492,12 @@ def _parse_simple_lines(
                 if expr_ast is not None and not _expr_has_name(expr_ast):
                     try:
                         value = _eval_const(text, vars)
-                    except Exception:
-                        pass
-                    else:
                         if isinstance(value, bool):
                             return 1 if value else 0
                         if isinstance(value, (int, float)):
                             return int(value)
+                    except Exception:
+                        pass
                 return _to_c_expr(text, vars, ctx)
 
             pin_value = _resolve_button_pin(pin_arg)
@@ -3043,15 +3054,14 @@ def _parse_simple_lines(
                 if expr_ast is not None and not _expr_has_name(expr_ast):
                     try:
                         value = _eval_const(pin_arg, vars)
-                    except Exception:
-                        pass
-                    else:
                         if isinstance(value, bool):
                             pin_value = 1 if value else 0
                             handled = True
                         elif isinstance(value, (int, float)):
                             pin_value = int(value)
                             handled = True
+                    except Exception:
+                        pass
                 if not handled:
                     pin_value = _to_c_expr(pin_arg, vars, ctx)
 
@@ -3087,15 +3097,14 @@ def _parse_simple_lines(
                 if expr_ast is not None and not _expr_has_name(expr_ast):
                     try:
                         value = _eval_const(pin_arg, vars)
-                    except Exception:
-                        pass
-                    else:
                         if isinstance(value, bool):
                             pin_value = 1 if value else 0
                             handled = True
                         elif isinstance(value, (int, float)):
                             pin_value = int(value)
                             handled = True
+                    except Exception:
+                        pass
                 if not handled:
                     pin_value = _to_c_expr(pin_arg, vars, ctx)
 
@@ -3161,13 +3170,12 @@ def _parse_simple_lines(
                 if expr_ast is not None and not _expr_has_name(expr_ast):
                     try:
                         value = _eval_const(text, vars)
-                    except Exception:
-                        pass
-                    else:
                         if isinstance(value, bool):
                             return 1 if value else 0
                         if isinstance(value, (int, float)):
                             return int(value)
+                    except Exception:
+                        pass
                 return _to_c_expr(text, vars, ctx)
 
             body.append(
@@ -3207,13 +3215,12 @@ def _parse_simple_lines(
                 if expr_ast is not None and not _expr_has_name(expr_ast):
                     try:
                         value = _eval_const(text, vars)
-                    except Exception:
-                        pass
-                    else:
                         if isinstance(value, bool):
                             return 1 if value else 0
                         if isinstance(value, (int, float)):
                             return int(value)
+                    except Exception:
+                        pass
                 return _to_c_expr(text, vars, ctx)
 
             red_value = _resolve_rgb_pin(red_arg)
@@ -3254,13 +3261,12 @@ def _parse_simple_lines(
                 if expr_ast is not None and not _expr_has_name(expr_ast):
                     try:
                         value = _eval_const(text, vars)
-                    except Exception:
-                        pass
-                    else:
                         if isinstance(value, bool):
                             return 1 if value else 0
                         if isinstance(value, (int, float)):
                             return int(value)
+                    except Exception:
+                        pass
                 return _to_c_expr(text, vars, ctx)
 
             trig_value = _resolve_pin(trig_arg)
@@ -3547,7 +3553,10 @@ def _parse_simple_lines(
                         if isinstance(entry, bool):
                             pattern_values.append(1 if entry else 0)
                         elif isinstance(entry, (int, float)):
-                            pattern_values.append(int(entry))
+                            try:
+                                pattern_values.append(int(entry))
+                            except (OverflowError, ValueError) as exc:
+                                raise ValueError("flash_pattern values must be finite") from exc
                         else:
                             raise ValueError("flash_pattern values must be numeric")
 
@@ -4009,7 +4018,10 @@ def _parse_simple_lines(
                 for entry in bitmap_value:
                     if not isinstance(entry, (int, float)):
                         raise ValueError("glyph bitmap must be a list of integers")
-                    bitmap_list.append(int(entry))
+                    try:
+                        bitmap_list.append(int(entry))
+                    except (OverflowError, ValueError) as exc:
+                        raise ValueError("glyph bitmap must be a list of integers") from exc
                 if len(bitmap_list) != 8:
                     raise ValueError("glyph bitmap must contain 8 rows")
                 body.append(
@@ -4199,6 +4211,21 @@ def _parse_simple_lines(
     return body
 
 
+def _nesting_as_value_error(func):
+    """Report an expression too deep for ``ast`` as ValueError, like any other unsupported input."""
+
+    def wrapper(src: str) -> Program:
+        try:
+            return func(src)
+        except (RecursionError, MemoryError) as exc:
+            # ast gives up with "maximum recursion depth exceeded" or "Parser stack overflowed"
+            raise ValueError("expression too deeply nested") from exc
+
+    wrapper.__doc__ = func.__doc__
+    return wrapper
+
+
+@_nesting_as_value_error
 def parse(src: str) -> Program:
     """Parse ``src`` into a :class:`~Reduino.transpile.ast.Program`."""
 
